@@ -531,7 +531,7 @@ def replay_history(ctx, history):
 LAWS = [
     plain_law("registry_complete", lambda tier: [{"check": "registry"}], registry_body),
     plain_law("every_function_every_variant", round_robin_cases, one_call_body, shards={"quick": 8, "thorough": 16}),
-    given_law("no_mutation_repeatable", one_call_cases(), one_call_body, {"quick": 60, "thorough": 400}, shards={"quick": 4, "thorough": 16}),
-    given_law("batch", batch_cases(), batch_body, {"quick": 150, "thorough": 1000}, shards={"quick": 1, "thorough": 8}),
-    machine_law("programs", make_machine, replay_history, {"quick": 40, "thorough": 200}, {"quick": 12, "thorough": 25}, shards={"quick": 3, "thorough": 16}),
+    given_law("no_mutation_repeatable", one_call_cases(), one_call_body, {"quick": 100, "thorough": 1200}, shards={"quick": 6, "thorough": 16}),
+    given_law("batch", batch_cases(), batch_body, {"quick": 150, "thorough": 2000}, shards={"quick": 3, "thorough": 16}),
+    machine_law("programs", make_machine, replay_history, {"quick": 60, "thorough": 600}, {"quick": 12, "thorough": 25}, shards={"quick": 6, "thorough": 16}),
 ]
